@@ -2,6 +2,9 @@
 //! Boring by design: a request kind maps to a list of reply predicates.
 use serde_json::{json, Value};
 
+/// the test service's interface definition (the crate `vts` generates and implements it)
+pub const TS_IDL: &str = include_str!("../../vts/idl/org.verif.t.varlink");
+
 #[derive(Debug, Clone, Copy, PartialEq, Eq, Hash, PartialOrd, Ord)]
 pub enum Kind {
     GetInfo,
@@ -225,7 +228,7 @@ impl Req {
             Kind::GetInfo => vec![Pred::ok(HasKeys(&[
                 "vendor", "product", "version", "url", "interfaces",
             ]))],
-            Kind::GidKnown => vec![Pred::ok(Exact(json!({"description": crate::ts::TS_IDL})))],
+            Kind::GidKnown => vec![Pred::ok(Exact(json!({"description": TS_IDL})))],
             Kind::GidUnknown | Kind::GidNoParams => {
                 vec![Pred::err("org.varlink.service.InvalidParameter", Any)]
             }
